@@ -8,14 +8,14 @@ PROPERTY = "C03"
 FUNCTIONS = ["trie.hexary.HexaryTrie.get_proof/_get_proof/get_from_proof/at_root/get/_get/_traverse_from/_set_raw_node/get_node"]
 ASSUMPTIONS = [
     "completeness: the key q is a genuinely symbolic byte string on every trie of the query family (canonical, oracle-built)",
-    "soundness: the corruption (kind in {withhold-only, swap neighbours, duplicate, replace by the node at the same depth of another trie's proof}, position, withheld subset as a bit mask, true root vs. the other trie's root) and the key (pool keys, their prefixes and extensions) are symbolic ints exhausted by the path search; the forged proof then runs concretely",
+    "soundness: the corruption (kind in {withhold-only, swap neighbours, duplicate, replace by the node at the same depth of another trie's proof, alter one node's content (other value / child pointer) keeping it well formed}, position, withheld subset as a bit mask, true root vs. the other trie's root) and the key (pool keys, their prefixes and extensions) are symbolic ints exhausted by the path search; the forged proof then runs concretely",
     "claimed roots are 32-byte hashes of tries in the family; offered nodes are well-formed (taken from real proofs); no keccak collisions",
 ]
 BOUNDS = {
     "quick": "completeness: 64 tries, symbolic q len <= 3.  soundness: every 4th trie; every withheld subset of the first 4 proof nodes; swap / duplicate / foreign-replace at each of 4 positions combined with <=1 withheld node; true root and another trie's root; ~10 keys (stored keys, their prefixes and extensions, foreign keys)",
     "thorough": "completeness: 379 tries, len <= 4.  soundness: every 2nd trie, withheld subsets / positions over the first 6 proof nodes",
 }
-OUTSIDE = "altered node *contents* other than whole-node replacement by nodes of another trie; roots that are not 32 bytes; keys longer than 4 bytes"
+OUTSIDE = "alterations other than the listed kinds (e.g. bit flips inside a key path); roots that are not 32 bytes; keys longer than 4 bytes"
 NONTRIVIAL_RULE = "completeness: proof of a non-empty absent key; soundness: the corrupted proof was rejected with BadTrieProof"
 
 
